@@ -184,7 +184,7 @@ public:
             return {pos, lo, hi};
         }
 
-        auto p = int64_t(root_slope * (k - first_key)) + root_intercept;
+        auto p = to_int64(root_slope * (k - first_key)) + root_intercept;
         auto pos = std::min<size_t>(p > 0 ? size_t(p) : 0ull, root_range);
 
         for (const auto &level : levels) {
@@ -225,6 +225,14 @@ public:
     }
 
 private:
+
+    /** Converts a predicted position to an integer. A prediction for a key far away from its segment may exceed the
+     * range of int64_t, in which case the conversion would be undefined; for the callers any value larger than the
+     * number of elements is equivalent. */
+    static int64_t to_int64(double x) {
+        constexpr double max_pos = 4611686018427387904.0; // 2^62
+        return x < max_pos ? int64_t(x) : int64_t(max_pos);
+    }
 
     template<typename T, typename Cmp>
     static std::vector<size_t> sort_indexes(const std::vector<T> &v, Cmp cmp) {
@@ -330,7 +338,7 @@ struct CompressedPGMIndex<K, Epsilon, EpsilonRecursive, Floating>::CompressedLev
     }
 
     inline size_t operator()(const std::vector<Floating> &slopes, size_t i, K k) const {
-        auto pos = int64_t(get_slope(slopes, i) * (k - keys[i])) + get_intercept(i);
+        auto pos = to_int64(get_slope(slopes, i) * (k - keys[i])) + get_intercept(i);
         return pos > 0 ? size_t(pos) : 0ull;
     }
 
